@@ -409,7 +409,7 @@ Definition N_dup_sources : popnet :=
 Definition N_coupling_shape : popnet :=
   {| pops := two_pops 2 1; conns := [mkconn 0 0 1 0 (WMat ([mkq 1 1; mkq (-2) 1] :: nil)) cpl_id 0 0] |}.
 Definition N_alias : popnet :=
-  {| pops := two_pops 2 2; conns := [mkconn 0 0 0 0 (WMat W22) cpl_diff 0 0; mkconn 1 0 0 0 (WMat W22) CPlain 0 0] |}.
+  {| pops := two_pops 2 2; conns := [mkconn 1 0 0 0 (WMat W22) cpl_diff 0 0; mkconn 0 0 0 0 (WMat W22) CPlain 0 0] |}.
 Definition N_delay_1x1 : popnet :=
   {| pops := two_pops 1 1; conns := [mkconn 0 0 1 0 (WMat ((mkq 3 1 :: nil) :: nil)) CPlain 0 2] |}.
 Lemma refuted_loud :
